@@ -289,6 +289,13 @@ def c13(chk):
                 if p == 0 or aff.get(p) != "high" or naddr.get(p, 0) == 0:
                     chk.monitor_fail("background dial to an ineligible peer (self / not High / no address): peer %d at tick %d" % (p, i), dict(case=sc, impl=str(per_tick)[:600]))
                     ok_case = False
+            if i == 0 and "ext" not in meta:
+                # at the first check nothing is connected, pending or backing off: every High-affinity peer with an address is
+                # due, and as many of them as the cap allows must be dialed
+                due = [e for e in meta["known"] if e.split(":")[1] == "high" and e.split(":")[2] and int(e.split(":")[0]) != 0]
+                if len(ds) != min(len(due), meta["maxout"]):
+                    chk.monitor_fail("first connectivity check: %d peer(s) are due (High affinity, with an address), the cap is %d, but %d dial(s) were started" % (len(due), meta["maxout"], len(ds)), dict(case=sc, impl=str(per_tick)[:400]))
+                    ok_case = False
             if len(ds) + meta.get("ext", {}).get(i, 0) > meta["maxout"] and len(ds) > 0:
                 chk.monitor_fail("%d background dial(s) started at tick %d while %d other connection(s) were being established: more than max outstanding (%d)" % (len(ds), i, meta.get("ext", {}).get(i, 0), meta["maxout"]), dict(case=sc))
                 ok_case = False
@@ -1461,6 +1468,36 @@ def c11(chk):
             chk.monitor_fail("a follow-up RPC after a deadline event failed: " + res[7][:80], dict(case=sc))
     if outs:
         chk.sample(dict(case=scen[0], impl=outs[0][:300], model=mouts[0]))
+    # the deadline covers the whole call, also the wait for a stream: the callee allows B concurrent streams, B long calls
+    # hold them all, and a further call with a deadline must fail at that deadline (not when a stream frees up)
+    scen2, metas2 = [], []
+    for i in range(6 if quick else 60):
+        rng = chk.rng
+        B = rng.choice([1, 2, 4])
+        out_to = None          # (an outbound default would cut the calls holding the streams as well)
+        hv = rng.choice([150, 300, 800])
+        E = hv
+        cmds = ["seed=%d delay=1000" % rng.randrange(1 << 30),
+                "node 0 idle=600000 keepalive=5000" + (" out_to=%d" % out_to if out_to else "") + (" outlayer=1" if rng.random() < 0.35 else ""),
+                "node 1 idle=600000 keepalive=5000 maxbidi=%d" % B, "connect 0 1", "sleep 500"]
+        cmds += ["bg hold%d rpc 0 1 id=hold%d size=10 sleep-ms=3000 timeout-hdr=%s" % (k, k, str(60000 * MS).encode().hex()) for k in range(B)]
+        cmds += ["sleep 50", "rpc 0 1 id=late size=10 sleep-ms=10%s" % (" timeout-hdr=%s" % str(hv * MS).encode().hex() if hv else "")]
+        cmds += ["join hold%d 600000" % k for k in range(B)] + ["rpc 0 1 id=after size=5"]
+        scen2.append("simnet " + " ; ".join(cmds))
+        metas2.append((B, E))
+    outs2, parsed2 = run_scenarios(chk, scen2, "fabric:deadline-waiting-for-a-stream")
+    for sc, res, (B, E) in zip(scen2, parsed2, metas2):
+        if res is None:
+            continue
+        chk.nontriv(sc)
+        cl = [c.strip() for c in sc[len("simnet "):].split(" ; ")][1:]
+        late = [x for c, x in zip(cl, res) if c.startswith("rpc 0 1 id=late")][0]
+        el_ms = int(fields(late).get("t", "0")) / 1000.0
+        if late.startswith("ok") or el_ms > E + 15:
+            chk.monitor_fail("a call with a %d ms deadline made while all %d streams of the connection were in use %s after %.1f ms" % (E, B, "was answered normally" if late.startswith("ok") else "failed only", el_ms), dict(case=sc, impl=late))
+        holds = [x for c, x in zip(cl, res) if c.startswith("join hold")]
+        if not all(x.startswith("ok st=200") for x in holds) or not res[-1].startswith("ok st=200"):
+            chk.monitor_fail("the calls holding the streams or the follow-up call failed: %s / %s" % ([x[:30] for x in holds], res[-1][:40]), dict(case=sc))
 
 
 def hdr_size_req(route, headers):
@@ -1728,6 +1765,11 @@ def c08(chk):
                 chk.monitor_fail("explicit shutdown returned an error: " + x, dict(case=sc))
             elif int(fields(x)["t"]) > bound_us:
                 chk.monitor_fail("shutdown took %s us, idle-wait bound is %d ms" % (fields(x)["t"], idle_wait), dict(case=sc))
+        for c, x in zip(cmds, res):
+            if (c == "shutdown 0" or c.startswith("join s")) and x.startswith("ok closed="):
+                f = fields(x)
+                if f["closed"] != "1" or f["peers"] != "0":
+                    chk.monitor_fail("a shutdown call returned Ok while the network still reports closed=%s with %s peer(s)" % (f["closed"], f["peers"]), dict(case=sc))
         if mode == "double":
             a, b = r["join s1 120000"][0], r["join s2 120000"][0]
             if "HANG" in (a, b, r["join c1 120000"][0]):
